@@ -48,7 +48,7 @@ class C13(Prop):
     ID = "C13"
     PROPS_FILE = "Props/C13.v"
     CORR_MODULE = "Filter.Corr"
-    MAX_WORKERS = 6
+    MAX_WORKERS = 4
     LEVEL_TEXT = ("Theorems (Coq, closed under the global context), for unbounded numbers of targets, rules, predicates, "
                   "filters and scheduling passes: MatchingBindingFilter.get_targets returns exactly the targets kept by "
                   "the property's wording, in declared order, or raises; it is total on well-formed predicates; a filter "
